@@ -377,6 +377,21 @@ func (f *frame) exec(entryReach string, st0 *State) {
 				entryEnv[phi.Comment] = Val{term: term, typ: phi.Type()}
 			}
 			f.cur = b
+			// go/ssa lowers `for i := range s` to a phi named rangeindex that starts
+			// at -1: its lower bound is an automatic (checked) invariant
+			for _, ins := range b.Instrs {
+				if phi, ok := ins.(*ssa.Phi); ok && phi.Comment == "rangeindex" {
+					has := false
+					for _, inv := range spec.Invariants {
+						if inv.Label == "auto-rangeindex" {
+							has = true
+						}
+					}
+					if !has {
+						spec.Invariants = append(append([]Clause{}, spec.Invariants...), Clause{Label: "auto-rangeindex", Src: "rangeindex >= -1 && rangeindex <= 140737488355328"})
+					}
+				}
+			}
 			for _, inv := range spec.Invariants {
 				t := f.evalSpec(inv.Src, st, entryEnv, nil)
 				g := fmt.Sprintf("%s/loop%d/inv:%s", f.name, loopOrd[b.Index], inv.Label)
